@@ -13,7 +13,7 @@ RULE = ("Alignments as in C06 (kalign results on generated protein/nucleotide se
         "kalign's own rows. Non-trivial = width > 60 and >= 1 gap in row 0; distinct by hash of the case.")
 ASSUMPTIONS = ["the MSF header's total Check is recorded but not judged (the property names the per-row values)",
                "molecule type is judged only when a C13 premise determines the kind of the residues"]
-BUDGET = {"quick": dict(examples=220, workers=12, seconds=70), "thorough": dict(examples=1300, workers=16, seconds=600)}
+BUDGET = {"quick": dict(examples=170, workers=12, seconds=60), "thorough": dict(examples=1300, workers=16, seconds=600)}
 
 
 @st.composite
@@ -21,7 +21,8 @@ def cases(draw, tier):
     big = tier == "thorough"
     src = draw(st.one_of(alngen.synthetic(max_n=30 if not big else 80), alngen.synthetic(max_n=8),
                          alngen.to_align(max_n=25 if not big else 70, max_len=200 if not big else 600)))
-    return {"src": src}
+    # the MSF header embeds the output file's base name: its length is part of the configuration
+    return {"src": src, "outname_len": draw(st.sampled_from([0, 0, 0, 0, 60, 150, 185, 190, 193, 195, 200, 230, 250]))}
 
 
 def strategy(tier):
@@ -82,8 +83,13 @@ def check(case):
         fp = wd.write(kal.fasta_bytes(names, src["seqs"]), ".fa")
         lines = ["read 0 1 %s" % fp, "run 0 %d %d -1 -1 -1" % (src["threads"], src["type"]), "dump 0"]
     outs = {}
+    import os
     for fmt in ("fasta", "clu", "msf"):
         outs[fmt] = wd.path("." + fmt)
+        nl = case.get("outname_len", 0)
+        if nl:
+            base = os.path.basename(outs[fmt])
+            outs[fmt] = os.path.join(os.path.dirname(outs[fmt]), ("o" * nl + base)[-max(nl, len(base)):][:250])
         lines.append("write 0 %s %s" % (fmt, outs[fmt]))
     lines.append("free 0")
     pr = runner.run_probe(lines)
@@ -109,6 +115,8 @@ def check(case):
         cl.append("width>60")
     if max(len(x) for x in tn) > 60:
         cl.append("name>60")
+    if case.get("outname_len", 0) >= 185:
+        cl.append("long_output_file_name")
     for k, fmt in enumerate(("fasta", "clu", "msf")):
         if s[3 + k]["rc"] != 0:
             return engine.violation({"what": "write(%s) failed" % fmt}, classes=cl, kind="status")
@@ -129,11 +137,14 @@ def check(case):
 
 def _sweep_items(tier):
     rows = list(range(2, 401)) + list(range(500, 525)) + list(range(1000, 1040)) if tier == "quick" else list(range(2, 2201))
-    return [(n, 2, 2) for n in rows] + [(3, w, 2) for w in range(1, 261)] + [(3, 70, nl) for nl in range(1, 201)] + \
+    return [("outname", k, 0) for k in range(20, 251)] + [(n, 2, 2) for n in rows] + [(3, w, 2) for w in range(1, 261)] + [(3, 70, nl) for nl in range(1, 201)] + \
            [(n, 61, 2) for n in (16, 17, 18, 340, 341, 342, 510, 511, 512, 513)]
 
 
 def _sweep_case(item):
+    if item[0] == "outname":
+        rows = ["MKVL-DEFHIW" * 7, "MKILADEF-IW" * 7, "MRVLADEFHI-" * 7]
+        return {"src": {"names": ["p1", "p2", "p3"], "rows": rows, "source": "synthetic"}, "outname_len": item[1]}
     n, w, nl = item
     rows = []
     for i in range(n):
@@ -160,6 +171,6 @@ def extra(tier, seed, stats):
         if r["status"] == "violation":
             out.append({"case": c, "detail": dict(r["detail"], sweep_item=list(it)), "kind": r.get("kind")})
         elif r.get("nontrivial"):
-            stats.nontrivial.add("sweep:%d:%d:%d" % it)
-    stats.extra["sweep"] = "every row count %s (width 2), every width 1..260 (3 rows), every name length 1..200 (exhaustive over those ranges)" % ("2..400, 500..524, 1000..1039" if tier == "quick" else "2..2200")
+            stats.nontrivial.add("sweep:%s:%s:%s" % tuple(it))
+    stats.extra["sweep"] = "every row count %s (width 2), every width 1..260 (3 rows), every name length 1..200, every output file name length 20..250 for a protein alignment (exhaustive over those ranges)" % ("2..400, 500..524, 1000..1039" if tier == "quick" else "2..2200")
     return out
